@@ -327,11 +327,14 @@ udp_find_pipe(udp_ep *ep, const nng_sockaddr *peer_addr)
 	// we'll keep incrementing id until we conclusively match
 	// or we get a NULL.  This is another level of rehashing, but
 	// it keeps us from having to look up.
+	// (A pipe that is closed already and only waits to be reaped is not a
+	// match: its successor for the same peer address may sit behind it.)
 	for (;;) {
 		if ((p = nni_id_get(&ep->pipes, id)) == NULL) {
-			return (NULL);
+			break;
 		}
-		if (nng_sockaddr_equal(&p->peer_addr, peer_addr)) {
+		if (nng_sockaddr_equal(&p->peer_addr, peer_addr) &&
+		    !nni_pipe_is_closed(p->npipe)) {
 			return (p);
 		}
 		id++;
@@ -339,6 +342,17 @@ udp_find_pipe(udp_ep *ep, const nng_sockaddr *peer_addr)
 			id = 1;
 		}
 	}
+	// The probe sequence has a hole where a pipe whose address hashed
+	// the same was removed earlier, so pipes behind it are only found
+	// by looking at all of them.
+	uint32_t cursor = 0;
+	while (nni_id_visit(&ep->pipes, NULL, (void **) &p, &cursor)) {
+		if (nng_sockaddr_equal(&p->peer_addr, peer_addr) &&
+		    !nni_pipe_is_closed(p->npipe)) {
+			return (p);
+		}
+	}
+	return (NULL);
 }
 
 static void
@@ -353,18 +367,16 @@ udp_remove_pipe(udp_pipe *p)
 	p->id = 0;
 	NNI_ASSERT(ep->peer_count != 0);
 	ep->peer_count--;
-	for (;;) {
-		udp_pipe *srch;
-		if ((srch = nni_id_get(&ep->pipes, id)) == NULL) {
-			break;
-		}
+	// Not by probing from the hash: the probe sequence can have a hole
+	// (see udp_find_pipe), and a pipe that stays in the table after it
+	// was destroyed is visited by the timer.
+	uint32_t  cursor = 0;
+	uint64_t  key;
+	udp_pipe *srch;
+	while (nni_id_visit(&ep->pipes, &key, (void **) &srch, &cursor)) {
 		if (srch == p) {
-			nni_id_remove(&ep->pipes, id);
+			nni_id_remove(&ep->pipes, key);
 			break;
-		}
-		id++;
-		if (id == 0) {
-			id = 1;
 		}
 	}
 	if (p->state < PIPE_CONN_DONE) {
@@ -1190,6 +1202,11 @@ udp_timer_cb(void *arg)
 	ep->next_wake = NNI_TIME_NEVER;
 	while (nni_id_visit(&ep->pipes, NULL, (void **) &p, &cursor)) {
 
+		// closed already, waits for the reaper: its time-out must not
+		// fail a later connect, and it needs no wake-up
+		if (nni_pipe_is_closed(p->npipe)) {
+			continue;
+		}
 		if (now > p->expire) {
 			char     buf[128];
 			nni_aio *aio;
